@@ -1,11 +1,11 @@
-\* C30 thorough: every flat command policy with <= 4 statements, full menus (37 831 programs)
-SPECIFICATION Spec
+\* C30 thorough: random derivations with <= 4 statements, nesting <= 2 (tlc -simulate)
+SPECIFICATION SimSpec
 CONSTANTS
   MaxStmts = 4
-  MaxDepth = 0
+  MaxDepth = 2
   OpsMenu <- MCOpsMenu
   RecallMenu <- MCRecallMenu
   MatchArms <- MCMatchArms
-  Enumerate = TRUE
+  Enumerate = FALSE
 INVARIANTS WellFormed NoSideEffectsOnFailure RecalledMarked ExitShape CompiledAgrees Emit
 CHECK_DEADLOCK FALSE
